@@ -27,11 +27,20 @@ def main():
                 results.append((m['name'], 'PATCH-DOES-NOT-APPLY (%d matches)' % orig.count(m['old']))); print('%-40s %s' % results[-1])
                 continue
             open(path, 'w').write(orig.replace(m['old'], m['new']))
+            extra = []
+            for e in m.get('also', []):
+                ep = os.path.join(base, e['file'])
+                eo = open(ep).read()
+                assert eo.count(e['old']) == 1, (m['name'], e['file'])
+                extra.append((ep, eo if ep != path else orig))
+                open(ep, 'w').write(eo.replace(e['old'], e['new']))
             env = dict(os.environ, VERIF_REPO=base)
             if m.get('suites'):
                 env['VERIF_SUITES'] = m['suites']
             t0 = time.time()
             p = subprocess.run([os.path.join(ROOT, 'check'), prop, 'quick'], env=env, capture_output=True, text=True)
+            for ep, eo in extra:
+                open(ep, 'w').write(eo)
             open(path, 'w').write(orig)
             line = [l for l in p.stdout.splitlines() if l.startswith('  suite=')]
             tag = ' [declared equivalent: %s]' % m['equivalent'] if m.get('equivalent') else ''
